@@ -39,7 +39,7 @@ def catalogue():
 
 def run(src=None):
     """returns {'results': {witness id: bool}, 'raw': tail of output, 'cached': bool, 'wall_s': float}"""
-    src = src or extract.REPO
+    src = src or getattr(extract, 'CURRENT_SRC', None) or extract.REPO
     t0 = time.time()
     with extract.Lock("witness.lock"):
         extract.build_driver()
